@@ -42,7 +42,9 @@ ASSUMPTIONS = [
 
 VALS_SMALL = (0, 2, 3, 5)       # 0: a zero factor must not hide an error
 VECTORS = ((2, 3, 5, 7, 11, 13), (7, 5, 3, 2, 11, 4), (0.5, 4, 3, 2, 8, 5),
-           (0, 3, 0, 2, 5, 0))
+           (0, 3, 0, 2, 5, 0),
+           # tiny but non-zero divisors are not zero
+           (2e-17, 3, 4e-17, 5, 8e-17, 2))
 
 AT = 'Sheet1!Z1'
 
@@ -139,7 +141,21 @@ def run_case(tree, vec, rnames, ctx):
         elif spelling == 'refpct':
             cells = {'Sheet1!' + exprs.cellref(i): v * 100
                      for i, v in enumerate(vec)}
-        got = lib.eval_formula(text, cells, at=AT)
+        model = None
+        if spelling in ('ref', 'refpct') and len(vec) > 1:
+            # keep the compiled model: it is evaluated again below under a
+            # second assignment ("all assignments of numbers to the
+            # referenced cells" of ONE compiled formula)
+            d = dict(cells)
+            d[AT] = text
+            try:
+                model = lib.compile_dict(d)
+                got = lib.eval_addr(model, AT)
+            except Exception as exc:  # noqa: BLE001
+                model = None
+                got = 'compile-raise:%s' % type(lib.innermost(exc)).__name__
+        else:
+            got = lib.eval_formula(text, cells, at=AT)
         key = 'C01/%s/v=%s/r=%s' % (tkey, ','.join(map(repr, vec)), rname)
         inputs = {'tree': tree, 'vec': list(vec), 'rendering': rname,
                   'formula': text, 'cells': cells}
@@ -161,7 +177,44 @@ def run_case(tree, vec, rnames, ctx):
                              inputs, w, got, False)
             else:
                 first_by_family[spelling] = got
+        if model is not None:
+            second_assignment(tree, vec, rname, spelling, rtags, model, ctx,
+                              nontriv)
     return want
+
+
+def second_assignment(tree, vec, rname, spelling, rtags, model, ctx, nontriv):
+    """The same compiled model, its cells overwritten with the rotated
+    vector, evaluated again."""
+    vec2 = tuple(vec[1:]) + tuple(vec[:1])
+    if vec2 == tuple(vec):
+        return
+    tags = set()
+    try:
+        want = ref.evaluate(tree, vec2, tags)
+    except ref.Skip as sk:
+        ctx.skip(sk.args[0])
+        return
+    if exprs.unsafe_bits(tree, vec2):
+        ctx.skip('unsafe-bigint-under-some-bracketing')
+        return
+    ev = lib.Evaluator(model)
+    scale = 100 if spelling == 'refpct' else 1
+    for i, v in enumerate(vec2):
+        lib.observe(ev.set_cell_value, 'Sheet1!' + exprs.cellref(i),
+                    v * scale)
+    got = lib.observe(ev.evaluate, AT)
+    lib.clear_caches()
+    key = 'C01/%s/v=%s->%s/r=%s' % (exprs.key_of(tree),
+                                    ','.join(map(repr, vec)),
+                                    ','.join(map(repr, vec2)), rname)
+    inputs = {'tree': tree, 'vec': list(vec), 'rendering': rname,
+              'second': list(vec2)}
+    if ref.accepts(want, got):
+        ctx.ok(key, got, nontriv)
+    else:
+        ctx.fail(key, sorted(tags | set(rtags) | {'assignment:second'}),
+                 inputs, ref.show(want), got, nontriv)
 
 
 def run_shard(shard, ctx):
@@ -208,7 +261,7 @@ def selftest():
             assert t not in seen, (t, tree, seen[t])
             seen[t] = tree
     for v in VALS_SMALL + tuple(x for vec in VECTORS for x in vec):
-        assert (v * 100) * 0.01 == v, v      # the refpct rendering is exact
+        assert abs((v * 100) * 0.01 - v) <= 1e-15 * abs(v), v      # the refpct rendering is exact
     assert exprs.sci(0.5) == '5E-1' and exprs.sci(11) == '1.1E+1'
     assert exprs.percent(0.5) == '50%' and exprs.percent(7) == '700%'
     assert exprs.minimal(('bin', '^', ('neg', ('leaf', 0)), ('leaf', 1)),
